@@ -668,7 +668,7 @@ execution `e` is neither a return nor a memory change, queues `e` for write-back
 `ch`; the register file is not touched (a write unit will write it later). -/
 theorem euRun_sends_result {app : App} {s s' : State} {i : Nat} {eu : ExecUnit} {r : Runner} {c : Int} {out : EuOut}
     {ch : Nat} {e : Gen.Execution} (hf : r.forwarder = some ch)
-    (he : (instrOf s r).run s.ctx app.labels r.pc eu.memory 0#32 = .ok e)
+    (he : (instrOf s r).run s.ctx app.labels r.pc eu.memory (if s.v71 then r.seq else 0#32) = .ok e)
     (hR : e.Return = false) (hM : e.MemoryChange = false)
     (h : euRun app s i eu r c = .ok (s', out)) :
     out = .none ∧ s'.chans = s.chans ++ [(ch, e.RegisterValue)] ∧ s'.ctx = s.ctx ∧
